@@ -14,3 +14,22 @@ Theorem C07_queue_sorted_by_stamp :
          (ghost_step c g idx (mkObs s now o (snd (step c now s o ch)) (fst (step c now s o ch)))).
 Proof. exact invO_step. Qed.
 Print Assumptions C07_queue_sorted_by_stamp.
+
+(* under concurrency (concurrent model AsyncConc): the recency update of a hit, whenever it runs
+   relative to the other threads' critical sections, is a use of the key: it moves the key to the back,
+   keeps the relative order of all other keys, and the key is not the next FIFO/LRU victim as long as
+   another key is queued *)
+From CL Require Import AsyncConc PfFresh.
+Theorem C07_hit_is_a_use_under_concurrency :
+  forall c now s k,
+    remove_all k (st_queue (astep c now s (A_touch k))) = remove_all k (st_queue s) /\
+    (mem k (st_store s) = true ->
+     st_queue (astep c now s (A_touch k)) = push_back k (remove_all k (st_queue s)) /\
+     forall k', In k' (st_queue s) -> k' <> k ->
+                hd_error (st_queue (astep c now s (A_touch k))) <> Some k).
+Proof.
+  intros c now s k. split; [apply touch_keeps_the_order_of_the_others|].
+  intro Hm. split; [apply touch_moves_to_back; exact Hm|].
+  intros k' Hin Hne. eapply touched_key_is_not_the_next_victim; eassumption.
+Qed.
+Print Assumptions C07_hit_is_a_use_under_concurrency.
